@@ -138,8 +138,69 @@ def check(ctx):
         ctx.fail("C05.O3", b, site=("magicbot/magicrobot.py", 0, "MagicRobot._create_components"), key=f"C05.O3|{b[:40]}")
     if not bad:
         ctx.ok("C05.O3", f"component list == creations in type-hint order on {nchk} start-up paths")
+    hierarchy_order(ctx, info2)
     ctx.floor("start-up paths checked for component order", nchk, 100)
     ctx.sample({"function": res[0][0], "tokens": [rr.short(t) for t in res[-1][3].tokens if rr.key(t)][:30]})
+
+
+def hierarchy_order(ctx, info):
+    """C05.O7: on a concrete two-level robot hierarchy (base robot class declares drive, arm; the derived class declares
+    shooter, intake) the components are created - and therefore executed - in the order of typing.get_type_hints(cls):
+    base classes first, each class in declaration order."""
+    from ..closure import clone
+    from ..values import ClassV, DictV, Ext
+
+    ctx.rule("C05.O7", "inherited robot classes: components are created in declaration order, base classes first")
+    info_, worlds = rr.prepare(ctx)
+    w = clone(worlds[0][0])
+    r = w["robot"]
+    UR = r.cls
+    names = [("drive", "arm"), ("shooter", "intake")]
+    types = {n: Ext(f"Component_{n}", "user", role="class") for grp in names for n in grp}
+    base = ClassV("BaseRobot", [UR], {"__annotations__": DictV({n: types[n] for n in names[0]}), "__doc__": None}, UR.module, None, "BaseRobot", mutable=False)
+    base.annotations = {n: types[n] for n in names[0]}
+    top = ClassV("SeasonRobot", [base], {"__annotations__": DictV({n: types[n] for n in names[1]}), "__doc__": None}, UR.module, None, "SeasonRobot", mutable=False)
+    top.annotations = {n: types[n] for n in names[1]}
+    r.cls = top
+    want = [n for grp in names for n in grp]
+
+    class H(rr.CreateHooks):
+        def decide(self, it, atom, node):
+            if atom[0] == "hasattr" and atom[-1] in want:
+                return False  # the robot has not set these attributes itself
+            return rr.CreateHooks.decide(self, it, atom, node)
+
+        def ext_call(self, it, fn_, args, kwargs, node):
+            if fn_.path == "typing.get_type_hints" and args and isinstance(args[0], ClassV) and args[0] in (top, base):
+                d = {}
+                for c in reversed(args[0].mro):
+                    for k, v in getattr(c, "annotations", {}).items():
+                        if isinstance(v, Ext):
+                            d[k] = v
+                return DictV(d)
+            return rr.CreateHooks.ext_call(self, it, fn_, args, kwargs, node)
+
+    def run(it, world):
+        rob = world["robot"]
+        it.generic_loop_fixed = 0  # no feedbacks / autonomous modes: only the order of creation is looked at
+        it.call(it.getattr(rob, "_create_components"), [], {})
+        return rob
+
+    paths = fn.all_paths(ctx, run, hooks=lambda: H(info), world=w, max_paths=50000)
+    ctx.add("paths", len(paths))
+    site = ("magicbot/magicrobot.py", info["MR"].lookup("_create_components")[1].node.lineno, "MagicRobot._create_components")
+    n = 0
+    bad = None
+    for p in paths:
+        if p.outcome != "return":
+            continue
+        created = [e.name[len("Component_"):].split("(")[0] for e in p.trace if e.kind == "user" and e.name.startswith("Component_") and "." not in e.name]
+        n += 1
+        order = [want.index(c) for c in created if c in want]
+        if order != sorted(order) or len(set(created)) != len(created):
+            bad = bad or f"a robot class hierarchy (base class declares {list(names[0])}, derived class declares {list(names[1])}) creates its components in the order {created}; declaration order, base classes first, is {want}"
+    ctx.floor("start-up paths of the two-level robot hierarchy that create all four components", sum(1 for p in paths if p.outcome == "return"), 20)
+    ctx.require(bad is None, "C05.O7", f"two-level robot hierarchy: components created in the order {want} on {n} paths", bad or "", site=site, key="C05.O7|order")
 
 
 def first_test_atoms(pi):
